@@ -11,6 +11,7 @@ From Coq Require Import List NArith ZArith Arith Bool.
 From Coq Require String.
 From PyTRS Require Import Engine.Regex Gen.Patterns PyRt.Str Gen.Tables Model.Trs Model.Unpack Model.TractParse
      Model.PlssPre Model.PlssParse Model.Config Model.PlssDesc Proofs.C03.Total Proofs.C11.CopyAll.
+From PyTRS Require Import Proofs.C03.Steps.
 Import ListNotations.
 Import String.StringSyntax.
 Local Open Scope string_scope.
@@ -48,3 +49,25 @@ Example C03_formerly_crashing :
   ntracts (s "Section NE/4 T154N-R97W") [] = Some 1 /\
   ntracts [] (s "segment,sec_within,parse_qq") = Some 1.
 Proof. vm_compute. repeat split; reflexivity. Qed.
+
+(* ---- totality of the regex-driven steps, for EVERY text (Engine/RegexStatic.v: what is read off the regenerated
+   patterns -- the number group is set on every path and holds a non-empty string of decimal digits -- is exactly
+   what rules out TypeError / ValueError / IndexError / KeyError at the group accesses) ---- *)
+Theorem C03_sec_step_total : forall txt e r, sec_step txt e = Some r -> exists st z, r = Ok st /\ int_of_group (rs_num st) = Ok z.
+Proof. exact sec_step_total. Qed.
+Print Assumptions C03_sec_step_total.
+
+Theorem C03_lot_step_total : forall txt e r, lot_step txt e = Some r -> exists st z, r = Ok st /\ int_of_group (rs_num st) = Ok z.
+Proof. exact lot_step_total. Qed.
+Print Assumptions C03_lot_step_total.
+
+(* SecUnpacker never raises (OutOfFuel is the model's loop bound, not a Python exception; see C16_fuel_unobservable) *)
+Theorem C03_sec_unpacker_total : forall txt e, sec_unpacker txt = Raise e -> e = OutOfFuel.
+Proof. exact sec_unpacker_total. Qed.
+Print Assumptions C03_sec_unpacker_total.
+
+(* unpacking a Twp/Rge match raises only the documented errors for an invalid default direction *)
+Theorem C03_unpack_twprge_total : forall txt x mc_ns mc_ew e,
+  In x (finditer twprge_regex twprge_regex_ng txt) -> unpack_short txt x mc_ns mc_ew = Raise e -> e = DefaultNSError \/ e = DefaultEWError.
+Proof. exact unpack_short_total. Qed.
+Print Assumptions C03_unpack_twprge_total.
